@@ -252,7 +252,13 @@ class WorkflowRecovery:
         messages_queued = 0
         failed_pushes = 0
 
-        for stage in full_workflow.stages:
+        # A workflow that has not started has nothing to resume: its stages are
+        # started by StartWorkflow, which also honours the cancel flag, the
+        # start-time expiry and the concurrency limit. Re-queue that message
+        # (below) instead of starting its initial stages behind its back.
+        stages = [] if full_workflow.status == WorkflowStatus.NOT_STARTED else full_workflow.stages
+
+        for stage in stages:
             can_start = self._can_start(stage, full_workflow) if stage.status == WorkflowStatus.NOT_STARTED else None
             logger.debug(
                 "Recovery eval: stage=%s ref_id=%s status=%s has_started=%s can_start=%s tasks=%d",
